@@ -6,5 +6,5 @@ CONSTANTS
   Letters = {1, 2, 3, 4, 5, 6, 7, 8, 9, 10, 11, 12, 13, 14, 15, 16, 17, 18, 19, 20}
   HeaderIds = {2, 14}
   Defects = {"hdrcut", "hdrcut1", "hdrcut3", "valcut", "padcut"}
-INVARIANTS AcceptIffWellFormed ErrorIsACause RejectedHasCause CausesAgree ExposureInv EmitCase
+INVARIANTS AcceptIffWellFormed ErrorIsACause RejectedHasCause CausesAgree TruncationDescribes ExposureInv EmitCase
 CHECK_DEADLOCK FALSE
